@@ -13,7 +13,7 @@ pub fn spec() -> Spec {
     Spec {
         prop: "C03",
         level: "exploration",
-        rule: "Differential twins: one generated history replayed under commit schedules never/every/every-k/random, every response and Obs (all read methods over every identifier the history mentioned) compared at every block boundary; clearCaches (boundary and mid-block) and reopen-without-commit compared with a fresh twin fed the prefix up to the last commit, then both extended identically. Non-trivial = a compared boundary at which one twin had >=1 block with transactions only in cache and the other had it on disk (schedule cases), or a clear/reopen that really discarded >=1 uncommitted block or open-block transaction; distinct by (history digest, schedule/case kind, boundary).",
+        rule: "Differential twins: one generated history (half of them with a rollback to the tip or one or two blocks back in the middle) replayed under commit schedules never/every/every-k/random, every response and Obs (all read methods over every identifier the history mentioned) compared at every block boundary; clearCaches (boundary and mid-block) and reopen-without-commit compared with a fresh twin fed the prefix up to the last commit, then both extended identically. Non-trivial = a compared boundary at which one twin had >=1 block with transactions only in cache and the other had it on disk (schedule cases), or a clear/reopen that really discarded >=1 uncommitted block or open-block transaction; distinct by (history digest, schedule/case kind, boundary).",
         assumptions: vec![
             "Obs covers the public read surface; state not reachable through any read method is not compared here (C10 compares raw database contents)".into(),
             "twins share bugs that do not depend on the commit schedule".into(),
@@ -35,7 +35,17 @@ fn schedule_case(ctx: &WorkerCtx, rep: &mut WorkerReport, case_seed: u64, blocks
     let mut p = new_driver("C03");
     // record Obs of the primary at every boundary lazily: we need the universe first, so run the
     // primary to the end, then replay primary again ("never") alongside the twins.
-    grow(&mut w, &mut p, blocks, CommitPolicy::Never, &mut rng);
+    // half of the histories contain a rollback (to the tip, or one or two blocks back): an accepted
+    // rollback writes out whatever survives it, under every schedule alike
+    let first = blocks / 2 + rng.below(2);
+    grow(&mut w, &mut p, first, CommitPolicy::Never, &mut rng);
+    if p.ntx == 0 && p.height > w.base as i64 + 2 && rng.chance(1, 2) {
+        let n = (p.height as u64) - rng.below(3);
+        if p.exec(Op::Reorg { n }).is_ok() {
+            rep.set_add("coverage", "rollback-inside-the-history".to_string());
+        }
+    }
+    grow(&mut w, &mut p, blocks.saturating_sub(first), CommitPolicy::Never, &mut rng);
     let ops: Vec<Op> = p.log.iter().map(|(o, _)| o.clone()).collect();
     let presp: Vec<_> = p.log.iter().map(|(_, r)| r.clone()).collect();
     let hd = digest_ops(&ops);
@@ -77,9 +87,15 @@ fn schedule_case(ctx: &WorkerCtx, rep: &mut WorkerReport, case_seed: u64, blocks
                 return;
             }
         }
-        let is_boundary = matches!(op, Op::Finalise { .. } | Op::Mine { .. } | Op::Init { .. }) && presp[i].is_ok();
+        let is_boundary = matches!(op, Op::Finalise { .. } | Op::Mine { .. } | Op::Init { .. } | Op::Reorg { .. }) && presp[i].is_ok();
         if !is_boundary {
             continue;
+        }
+        if matches!(op, Op::Reorg { .. }) {
+            for k in 0..twins.len() {
+                blocks_with_txs_since[k] = 0;
+            }
+            rep.nontrivial(format!("{}:rollback-under-every-schedule:{}", hd, boundary));
         }
         for k in 0..twins.len() {
             if block_has_tx {
